@@ -51,7 +51,7 @@ CHECKS = {
         ref="DESIGN.md §6 C11"),
     "C12": dict(
         category="fault_enumeration",
-        text="Fault enumeration over crash points x seeded programs (a third of them with steps / branches / acts written without an id, whose generated ids must survive the reload): run A (no fault) records its quiescent points; runs B_i inject an engine restart on the same store (SQLite file / transplanted in-memory collections) or a cache eviction at quiescent point i - every point in the thorough tier, up to five seeded points and one pair in the quick tier - and must show the same client history (canonical sequential client), the same per-phase message multisets up to ids/tids/timestamps, the same final task outcomes and the same terminal event and outputs as A. Programs and schedules are sampled; within a program the crash points are enumerated.",
+        text="Fault enumeration over crash points x seeded programs (a third of them with steps / branches / acts written without an id, whose generated ids must survive the reload; a quarter with timeout rules and time passing between the client's actions; a fifth with a call of a sub-workflow that completes, fails or is aborted): run A (no fault) records its quiescent points; runs B_i inject an engine restart on the same store (SQLite file / transplanted in-memory collections) or a cache eviction at quiescent point i - every point in the thorough tier, up to five seeded points and one pair in the quick tier - and must show the same client history (canonical sequential client), the same per-phase message multisets up to ids/tids/timestamps, the same final task outcomes and the same terminal event and outputs as A. Programs and schedules are sampled; within a program the crash points are enumerated.",
         note="Trusted: crash = drop every task/timer of the old engine epoch without running it, only the store survives; eviction through the guarded cache hook. Faults at quiescent points only (the statement's scope). An else-branch still `pending` at the end of a truncated history counts as `skipped` (it is decided lazily).",
         technique="deterministic simulation: crash/restart and eviction injected at every quiescent point, differential against the uninterrupted run",
         ref="DESIGN.md §6 C12"),
